@@ -414,9 +414,6 @@ fn build_registry() -> Registry {
         s.args = vec![b, selectors.iter().flat_map(|x| x.to_le_bytes()).collect()];
         seeds.push(s);
     }
-    for (n, b) in crate::props::c13::seed_files(&ctx, 5 * k) {
-        seeds.push(SeedFile::new("tex", n, b).marks(vec![4, 8, 10, 12, 14, 80]));
-    }
     {
         // the 16-bit format the texture generator of C13 does not cover (2 bytes per pixel)
         let mut w = W::new();
@@ -424,6 +421,9 @@ fn build_registry() -> Registry {
         w.pad_to(80);
         w.bytes(&crate::build::mdl::random_bytes(11, 8 * 4 * 2));
         seeds.push(SeedFile::new("tex", "hand-B4G4R4A4", w.b).marks(vec![4, 8, 10, 12, 14, 80]));
+    }
+    for (n, b) in crate::props::c13::seed_files(&ctx, 5 * k) {
+        seeds.push(SeedFile::new("tex", n, b).marks(vec![4, 8, 10, 12, 14, 80]));
     }
     for (n, exh, exd) in crate::props::c05::seed_files(&ctx, 3 * k) {
         seeds.push(SeedFile::new("exh", n.clone(), exh.clone()).magic(4));
@@ -453,11 +453,12 @@ fn build_registry() -> Registry {
         seeds.push(SeedFile::new("cmp", "rows6", file).marks(vec![0x2a800 - 2, 0x2a800 + 56, 0x2a800 + 5 * 56]));
     }
     seeds.push(SeedFile::new("tera", "plates5", crate::props::c16::seed_tera(&[(0, 0), (1, -1), (-3, 7), (64, 64), (-64, 63)])));
+    // the richest seed first: the quick tier sweeps the first two seeds of an entry point field by field
+    seeds.push(SeedFile::new("lgb", "objects", lgb_with_objects()).magic(4));
     seeds.push(SeedFile::new("lgb", "empty", crate::props::c16::seed_lgb("planlive")).magic(4));
     if let Ok(b) = std::fs::read(util::repo_root().join("resources/tests/empty_planlive.lgb")) {
         seeds.push(SeedFile::new("lgb", "fixture", b).magic(4));
     }
-    seeds.push(SeedFile::new("lgb", "objects", lgb_with_objects()).magic(4));
     seeds.push(SeedFile::new("stm", "three", stm_seed()));
     seeds.push(SeedFile::new("dic", "words", dic_seed()).marks((0..12).map(|k| 0x8124 + 1536 + 4 * k).chain([0x8B50, 0x8F50, 0x8F70, 0x8F80, 0x8F90, 0x8FA0, 0x8FB0, 0x8FC0]).collect()));
     seeds.push(SeedFile::new("avfx", "values", avfx_seed()).magic(4));
